@@ -1,6 +1,6 @@
 """Families for C09 (operators and casts at every boundary, in three usage positions), C17 (write family),
 C13 (constant data), C14 (compile-time evaluation twins), C05 (fault injection)."""
-import random
+import random, re
 from . import runner
 
 
@@ -250,8 +250,9 @@ def const_family(seed, tier):
         items.append(runner.Item(('c13', 'global_chars', lo), src, [], s=80, meta={'family': 'const_global_char_arrays'}))
     # raw (unescaped in the source) printable characters
     raw = '\t' + ''.join(chr(c) for c in range(32, 127) if chr(c) not in '"\\') + '\t\t.'
-    items.append(runner.Item(('c13', 'raw'), 'empty @is_you() { string s = "%s"; %s }' % (raw, dump('s')), [], s=80,
-                             meta={'family': 'const_raw'}))
+    for i in range(0, len(raw), 33):
+        items.append(runner.Item(('c13', 'raw', i), 'empty @is_you() { string s = "%s"; %s }' % (raw[i:i + 33], dump('s')), [], s=80,
+                                 meta={'family': 'const_raw'}))
     special = [0x5c, 0x22, 0x27, 0x0a, 0x0d, 0x00, 0x20, 0x7e, 0x7f, 0x80, 0xff, 0x41]
     pairs = [(a, b) for a in special for b in special]
     per = 12
@@ -270,8 +271,9 @@ def const_family(seed, tier):
         for k, col in enumerate(list(range(66, 76)) + list(range(140, 147))):
             body = 'a' * col + esc_txt + 'tail'
             stmts.append('string q%d = "%s"; write(q%d.length); write(q%d); write(\'|\');' % (k, body, k, k))
-        items.append(runner.Item(('c13', 'long', esc_txt), 'empty @is_you() { %s }' % ' '.join(stmts), [], s=120,
-                                 meta={'family': 'const_long_strings'}))
+        for i in range(0, len(stmts), 5):       # (a few strings per program: the run must stay short enough for TLC)
+            items.append(runner.Item(('c13', 'long', esc_txt, i), 'empty @is_you() { %s }' % ' '.join(stmts[i:i + 5]), [], s=120,
+                                     meta={'family': 'const_long_strings'}))
     for w in (3, 4):
         items.append(runner.Item(('c13', 'litcast', w), 'empty @is_you() { write("abc" is byte[]); write(("wxyz" is byte[])[2]); write(("wxyz" is byte[]).length); const byte[] l = "q\\n" is byte[]; write(l.length); write(l); }',
                                  [], w=w, s=80, meta={'family': 'const_string_casts'}))
@@ -488,6 +490,16 @@ empty @is_you(int a) { write([side(a), side(a + 1)].length); write(g); write(["x
                       '''int g = 0; int side(int v) { g += 1; write('s'); return v; }
 empty @is_you(int a) { int[] t1 = [side(a), side(a + 1)]; write(t1.length); write(g); string[] t2 = ["x", "yz"]; write(t2.length); int[] t3 = [side(1)]; string t4 = "abc"; write(t3.length + t4.length); write(g);
   int[] t5 = [side(a)]; if (t5.length == 1) { write('t'); } write(g); int[] t6 = [a, side(a), 3]; int n = t6.length * 2; write(n); write(g); }''', [['0'], ['5']]))
+# comparisons against literals outside the range of one operand's TYPE (bytes, bools as ints, lengths): only the value decides
+FOLD_PROGRAMS.append(('compare_with_out_of_range_literal', '''empty @is_you(byte x, byte y, int i) { string s = "abc"; bool t = i > 0;
+  write((x + y) < 256); write((x * y) > 255); write((0 - x) < 0); write((x - y) >= 0); write(x < 256); write(x > (0 - 1)); write((x is int) == 300); write(x + y == 300);
+  write(s.length < 0); write(s.length >= 0); write((t is int) < 2); write((t is int) > 1); write((i is byte) < 256); write((i is byte) >= 0); write(((x + y) is byte) < (x + y));
+  if ((x + y) < 256) { write('T'); } else { write('F'); } try { !truth_is_defeat((x * y) > 255); write('n'); } undo { write('u'); } }''',
+                      '''empty @is_you(byte x, byte y, int i, int k256, int k255, int k0, int km1, int k300, int k2, int k1) { string s = "abc"; bool t = i > 0;
+  write((x + y) < k256); write((x * y) > k255); write((k0 - x) < k0); write((x - y) >= k0); write(x < k256); write(x > km1); write((x is int) == k300); write(x + y == k300);
+  write(s.length < k0); write(s.length >= k0); write((t is int) < k2); write((t is int) > k1); write((i is byte) < k256); write((i is byte) >= k0); write(((x + y) is byte) < (x + y));
+  if ((x + y) < k256) { write('T'); } else { write('F'); } try { !truth_is_defeat((x * y) > k255); write('n'); } undo { write('u'); } }''',
+                      [[str(x), str(y), str(i), '256', '255', '0', '-1', '300', '2', '1'] for x, y, i in ((1, 2, 5), (200, 100, -3), (255, 255, 256), (0, 0, 0), (16, 16, 300), (150, 150, 1))]))
 FOLD_PROGRAMS.append(('literal_zero_elements', '''int fill(int x) { int[] junk = [x, x + 1, x + 2, x + 3, x + 4, x + 5]; return junk[5]; }
 empty @is_you(int x) { write(fill(x)); write(' '); for (int i = 0; i < 2; i += 1) { { int[] a = [9, 9, 9, 9, x + 9]; write(a[4]); } { int[] b = [x, 0, 0, 0, 0]; write(b[0] + b[1] + b[2] + b[3] + b[4]); write(' ');
   byte[] c = [(x is byte), 0, 0]; write(c[1] is int); write(c[2] is int); bool[] d = [x > 0, false, false, false, false, false, false, false, false, false]; write(d[1]); write(d[9]); write(f3([x, 0, 0])); } } }
@@ -526,7 +538,9 @@ def fold_family(ws):
                     items.append(runner.Item(('fold', name, tuple(args), w), a, args, w=w, s=120,
                                              meta={'family': 'fold:' + name, 'classifier': {'form': name}}))
                 else:
-                    items.append(runner.Item(('fold', name, tuple(args), w), a, args[:1], w=w, s=120, sem_src=b, sem_args=args,
+                    sig = re.search(r'@is_you\(([^)]*)\)', a).group(1).strip()
+                    na = len(sig.split(',')) if sig else 0          # the constant form takes the first arguments of its twin
+                    items.append(runner.Item(('fold', name, tuple(args), w), a, args[:na], w=w, s=120, sem_src=b, sem_args=args,
                                              meta={'family': 'fold:' + name, 'twin': (a, b, args), 'classifier': {'form': name}}))
     return items
 
@@ -638,8 +652,8 @@ empty @is_you(int k, int d) {
     for args in ([0], [1], [3], [9], [9, 4], [9, 4, 5]):
         items.append(runner.Item(('flt', 'idx_last', tuple(args)), src, [str(x) for x in args], s=120,
                                  meta={'family': 'fault:idx_last', 'classifier': {'site': 'idx_last'}}))
-    src = '''byte[] T255 = [%s]; byte[] T256 = [%s, 9];
-empty @is_you(int i) { byte b = i is byte; int t5[255]; for (int k = 0; k < 255; k += 1) { t5[k] = k; } write('a'); if (i < 1000) { write(T256[b] is int); write(T255[b] is int); write(t5[b]); } else { T255[b] = 1; } write('b'); }''' % (', '.join(str(k % 251) for k in range(255)), ', '.join(str(k % 251) for k in range(255)))
+    src = '''byte[] T255 = [%s]; byte[] T256 = [%s, 9]; int t5[255];
+empty @is_you(int i) { byte b = i is byte; t5[254] = 7; write('a'); if (i < 1000) { write(T256[b] is int); write(T255[b] is int); write(t5[b]); } else { T255[b] = 1; } write('b'); }''' % (', '.join(str(k % 251) for k in range(255)), ', '.join(str(k % 251) for k in range(255)))
     for i in (0, 254, 255, 256 + 255, 1255, 1254):
         items.append(runner.Item(('flt', 'idx_byte_255', i), src, [str(i)], s=600,
                                  meta={'family': 'fault:idx_byte_255', 'classifier': {'site': 'idx_byte_255'}}))
